@@ -346,6 +346,7 @@ def nt_c06(lhs, impl):
 PROPS["C06"] = {
     "modules": ["WhatIs.Props.C06"],
     "theorems": ["WhatIs.C06.ssh_lists_all", "WhatIs.C06.ssh_bad_line_fails", "WhatIs.C06.pem_blocks_all",
+                 "WhatIs.C06.pem_decode_text", "WhatIs.C06.pem_decode_progress", "WhatIs.C06.pem_bundle_from_bytes",
                  "WhatIs.C06.pem_file_shape", "WhatIs.C06.jks_lists_all"],
     "facts": {},
     "nontrivial": nt_c06,
@@ -359,14 +360,17 @@ PROPS["C06"] = {
     "level_text": "Proof: by induction over an UNBOUNDED list of lines/blocks/entries: the SSH file parsers return exactly the descriptions "
                   "of the key lines in order for every interleaving of blank/comment lines, LF or CRLF, final newline or not, and fail (never "
                   "drop silently) on an unparsable line; the PEM loop yields exactly the non-PGP blocks in order for any dash-free surrounding "
-                  "text under H-pem; keystores map entries one to one. Tied to the code by a differential run where every child is compared "
+                  "text — first for any decoder satisfying H-pem, then (pem_decode_text, pem_bundle_from_bytes) for the CONCRETE model of "
+                  "encoding/pem.Decode, for which H-pem is a theorem: a bundle of RFC 7468 texts with any labels, bodies, line widths and "
+                  "LF/CRLF endings is read back from its bytes as exactly those blocks in order, and the decoder's loop provably terminates "
+                  "(pem_decode_progress); keystores map entries one to one. Tied to the code by a differential run where every child is compared "
                   "with the same entry inspected alone.",
-    "level_note": "Trusted: Lean kernel; ssh.ParseAuthorizedKey/ParseKnownHosts, pem.Decode, jks-go as oracles (per-line / per-block tables "
-                  "recorded by the harness); hypotheses hcr (library ignores a trailing CR), H-pem (Decode on input starting with a block "
-                  "returns that block and the rest); junk text between PEM blocks is assumed free of '-' in the theorem (explored with dashes).",
+    "level_note": "Trusted: Lean kernel; ssh.ParseAuthorizedKey/ParseKnownHosts, jks-go as oracles (per-line tables recorded by the "
+                  "harness); hypothesis hcr (library ignores a trailing CR); that Go's encoding/pem.Decode behaves as its Lean model "
+                  "(Model/Pem.lean: differential ops pemdec/pemfile on well-formed, mutated and random texts on every run); junk text between PEM blocks is assumed free of '-' in the theorem (explored with dashes).",
     "technique": "Lean 4 proof (induction over unbounded entry lists with oracle-parameterised decoders) + differential correspondence (child = entry inspected alone)",
-    "trusted_base": ["x/crypto/ssh line parsers, encoding/pem, jks-go (oracles)"],
-    "assumptions": ["per-line parse is a function of the line", "H-pem"],
+    "trusted_base": ["x/crypto/ssh line parsers, jks-go (oracles)", "model of encoding/pem.Decode (Model/Pem.lean) validated against the library (ops pemdec, pemfile)"],
+    "assumptions": ["per-line parse is a function of the line", "encoding/pem.Decode behaves as modelled outside the explored texts"],
 }
 
 def nt_c04(lhs, impl):
@@ -566,7 +570,7 @@ def nt_c05(lhs, impl):
 
 PROPS["C05"] = {
     "modules": ["WhatIs.Props.C05"],
-    "theorems": ["WhatIs.C05.trial_selects", "WhatIs.C05.label_matches", "WhatIs.C05.pem_eq_der", "WhatIs.C05.b64_eq_der",
+    "theorems": ["WhatIs.C05.trial_selects", "WhatIs.C05.label_matches", "WhatIs.C05.pem_eq_der", "WhatIs.C05.pem_text_eq_der", "WhatIs.C05.b64_eq_der",
                  "WhatIs.C05.polyglot_lengths", "WhatIs.C05.polyglot_witness"],
     "facts": {},
     "nontrivial": nt_c05,
@@ -581,13 +585,17 @@ PROPS["C05"] = {
     "level_text": "Proof: for ANY behaviour of the typed parsers, a type whose parser accepts while no earlier trial does is described "
                   "identically through the DER trial order and through its PEM label (label switch proved to hit the same parser, any "
                   "letter case); for ALL byte strings and all four conventions/any wrap width/LF or CRLF the base64 route equals the DER "
-                  "route (C14 round trip); the one collision (text that is itself a DER element) is characterised arithmetically: exactly "
+                  "route (C14 round trip); the PEM presentation is proved FROM THE BYTES OF THE FILE: for every body, the RFC 7468 text "
+                  "under the type's label, any line width, LF or CRLF, with dash-free text before and after, goes through a concrete model "
+                  "of encoding/pem.Decode (validated against the library on well-formed and hostile texts: ops pemdec/pemfile) and the loop "
+                  "of PEMFile to exactly the description of the raw DER (pem_text_eq_der); the one collision (text that is itself a DER element) is characterised arithmetically: exactly "
                   "total length 52, unpadded, unwrapped (recorded finding D16). That no earlier trial accepts a well-formed object of a "
                   "later type depends on encoding/asn1 and is explored differentially, not proved.",
-    "level_note": "Trusted: Lean kernel; C14 theorems; typed parsers (crypto/x509, encoding/asn1) as oracle; H-pem for the surrounding-text "
-                  "variants (explored).",
+    "level_note": "Trusted: Lean kernel; C14 theorems; typed parsers (crypto/x509, encoding/asn1) as oracle; that Go's encoding/pem.Decode "
+                  "behaves as its Lean model (Model/Pem.lean; differential run on every check); surrounding text with dashes is explored, "
+                  "not proved.",
     "technique": "Lean 4 proof (oracle-parameterised trial order / label switch; reuse of the C14 round-trip theorem; omega characterisation of the polyglot) + differential correspondence across presentations",
-    "trusted_base": ["crypto/x509, encoding/asn1, encoding/pem (oracles)"],
+    "trusted_base": ["crypto/x509, encoding/asn1 (oracles)", "model of encoding/pem.Decode (Model/Pem.lean) validated against the library (ops pemdec, pemfile)"],
     "assumptions": ["shape exclusion between the seven ASN.1 types is a property of encoding/asn1 (explored on every generated object)"],
 }
 
